@@ -106,6 +106,14 @@ def run(run):
                         m3, e3 = ct.array_contract(arrays, net.c_inputs(), net.c_output(), strip_exponent=True,
                                                    optimize=rng.choice(["greedy", "auto"]))
                         plain = tree.contract(arrays)
+                        # stripping asked for per CALL on objects built without it: a cached expression and the tree's own
+                        # contractor (unsliced trees only: a contractor executes one slice)
+                        percall = []
+                        ex_ = ct.array_contract_expression(net.c_inputs(), net.c_output(), net.c_sizes(), optimize="greedy")
+                        percall.append(("array_contract_expression(...)(*arrays, strip_exponent=True)", ex_(*arrays, strip_exponent=True)))
+                        if not sl:
+                            percall.append(("tree.get_contractor()(*arrays, strip_exponent=True)",
+                                            tree.get_contractor()(*arrays, strip_exponent=True)))
                         # the manual workflow: slices materialised once (stripped) and gathered more than once
                         manual = None
                         if sl and tree.nslices <= 18:
@@ -121,7 +129,7 @@ def run(run):
                 for nm, (mm, ee) in [("tree.contract", (m, e)), ("tree.contract(recording implementation)", (m2, e2)),
                                      ("array_contract", (m3, e3))] + \
                         ([("gather_slices(materialised stripped slices)", manual[0]),
-                          ("gather_slices(the same materialised slices, gathered again)", manual[1])] if manual else []):
+                          ("gather_slices(the same materialised slices, gathered again)", manual[1])] if manual else []) + percall:
                     mm = np.asarray(mm, dtype=np.float64)
                     ok = np.all(np.isfinite(mm)) and math.isfinite(float(ee))
                     if ok:
@@ -215,6 +223,75 @@ def run(run):
                               f"{ref.tolist()} x 10^{S} when >= 2 slices vanish exactly: eq={net.eq()} dims={net.dims} ssa={ssa} "
                               f"sliced={net.lab[ix]} zero slab of tensor {t} at values {zero_vals} scales={scales}"[:700], d,
                               tags=stags | {"value"})
+    # ---- exactly CANCELLING leading slices followed by much smaller ones: slab 0 of a tensor along the sliced index is the
+    #      negative of slab 1 (so slices 0 and 1 cancel exactly), the other slabs are 1e-20 times smaller: the whole
+    #      answer is the contribution of the small slabs
+    for net in pool:
+        if net.N < 2 or net.K < 1:
+            continue
+        for _ in range(2 if quick else 4):
+            ix = rng.randint(1, net.K)
+            if net.dim(ix) < 3 or not net.on(ix):
+                continue
+            ssa = nets.tree_to_ssa(nets.rand_tree(rng, net.N), net.N, rng)
+            I = pos_arrays(net, rng)
+            t = rng.choice(net.on(ix))
+            if net.inputs[t].count(ix) != 1:
+                continue
+            ax = net.inputs[t].index(ix)
+            sel0, sel1 = [slice(None)] * I[t].ndim, [slice(None)] * I[t].ndim
+            sel0[ax], sel1[ax] = 0, 1
+            I[t][tuple(sel1)] = -I[t][tuple(sel0)]
+            # every other tensor carrying the index looks the same at values 0 and 1, so that slice 1 = -slice 0 exactly
+            skip = False
+            for t2 in net.on(ix):
+                if t2 == t:
+                    continue
+                if net.inputs[t2].count(ix) != 1:
+                    skip = True
+                    break
+                ax2 = net.inputs[t2].index(ix)
+                a0, a1 = [slice(None)] * I[t2].ndim, [slice(None)] * I[t2].ndim
+                a0[ax2], a1[ax2] = 0, 1
+                I[t2][tuple(a1)] = I[t2][tuple(a0)]
+            if skip:
+                continue
+            for v in range(2, net.dim(ix)):
+                selv = [slice(None)] * I[t].ndim
+                selv[ax] = v
+                I[t][tuple(selv)] = I[t][tuple(selv)] * 1e-20
+            # the exact answer: only the small slabs contribute
+            rest = [a.copy() for a in I]
+            rest[t][tuple(sel0)] = 0.0
+            rest[t][tuple(sel1)] = 0.0
+            ref = nets.refeval(net, rest)
+            if not np.all(ref != 0):
+                continue
+            d = {"net": net.to_json(), "ssa": [list(p) for p in ssa], "sliced": [ix], "cancelling_slabs": [t, ix]}
+            run.count()
+            run.nontrivial(("cancelling-slices", net.eq(), str(ssa), ix, t))
+            try:
+                with core.watchdog(60), np.errstate(all="ignore"):
+                    tree = observe.build_tree(ct, net, ssa)
+                    tree.remove_ind_(net.lab[ix])
+                    outs = [("tree.contract", tree.contract(I, strip_exponent=True))]
+                    slices = [tree.contract_slice(I, i_, strip_exponent=True) for i_ in range(tree.nslices)]
+                    outs.append(("gather_slices", tree.gather_slices(slices)))
+            except Exception as ex:
+                run.violation(f"strip_exponent with exactly cancelling leading slices raised {core.exc_text(ex)} eq={net.eq()} "
+                              f"sliced={net.lab[ix]}", d, tags={"cancelling-slices", "raised"})
+                continue
+            for nm, (m, e) in outs:
+                mm = np.asarray(m, dtype=np.float64)
+                ok = np.all(np.isfinite(mm)) and math.isfinite(float(e))
+                if ok:
+                    val = mm * 10.0 ** float(e)
+                    ok = val.shape == ref.shape and np.allclose(val, ref, rtol=1e-6, atol=0)
+                if not ok:
+                    run.violation(f"{nm}(strip_exponent=True): slices 0 and 1 cancel exactly, the remaining slices are 1e-20 times "
+                                  f"smaller: mantissa {mm.tolist()} x 10^{e} differs from the exact result {ref.tolist()}: eq={net.eq()} "
+                                  f"dims={net.dims} ssa={ssa} sliced={net.lab[ix]} tensor {t}"[:700], d, tags={"cancelling-slices", "value"})
+                    break
     # the evaluator itself, tied to the spec on canonical arrays for a sample of the networks
     for net in pool[: (12 if quick else 40)]:
         ref = nets.refeval(net, nets.canon_arrays(net))
